@@ -1,5 +1,5 @@
 SPECIFICATION Spec
 CONSTANTS Parts = {"tree", "extract", "corrupt"}  MaxNodes = 4  FullNodes = 3  MaxHostile = 1
-          MaxMembers = 4  HardLinkRule = "prefix"  Gen = TRUE
+          MaxMembers = 4  HardLinkRule = "resolved"  Gen = TRUE
 INVARIANT GenPrint
 CHECK_DEADLOCK FALSE
